@@ -105,8 +105,12 @@ Close(a, b, tol) == /\ Abs(a[1] - b[1]) <= 1
                     /\ Abs((a[1] - b[1]) * 1000000000 + (a[2] - b[2])) <= tol
 \* abstraction of num/den (den > 0) to units of 1/2: floor, and whether there is a fractional part
 Coarse(num, den) == 2 * (num \div den) + (IF (num % den) = 0 THEN 0 ELSE 1)
-\* the fractional part is within ~10^-6 of a pixel boundary (where a float evaluation may land on the other side)
-NearBoundary(num, den) == LET r == num % den  e == (den \div 1000000) + 1 IN r <= e \/ den - r <= e
+\* num/den is within 10^-6 of the integer NearInt (a float evaluation may land on the other side of it); 0 = not near
+\* (reported as the integer + 1000000 so that 0 can mean "none")
+NearTag(num, den) == LET r == num % den  e == (den - 1) \div 1000000 IN
+  IF r <= e THEN (num \div den) + 1000000 ELSE IF den - r <= e THEN (num \div den) + 1000001 ELSE 0
+\* near an integer at which the outcome of check-and-nudge changes (far / nudged / inside; the bottom edge for finding 3)
+NearCritical(num, den, size) == LET t == NearTag(num, den) IN t # 0 /\ (t - 1000000) \in {-2, -1, size, size + 1}
 
 (* ------------------------------------------------------------------ grid sampling *)
 \* image: rows of 16-bit chunks; pixel (x, y), 0-based
@@ -114,13 +118,15 @@ Pixel(img, x, y) == BitOf(img[y + 1][(x \div 16) + 1], x % 16)
 \* The grid's source square has origin (a2/2, a2/2) and side c; cell (x, y) is sampled at its centre (x+1/2, y+1/2),
 \* i.e. at u = (centre - origin)/c of the unit square, homogeneous (2x+1-a2, 2y+1-a2, 2c).  m = SquareToQuad(dst) with
 \* dst in units of 1/F pixel.  A row is a sequence of <<x, y, flag>>: coordinates abstracted to units of 1/2 (floor and
-\* integrality are all that nudging and truncation depend on); flag 1 = within 10^-6 of a pixel boundary, 2 = the
-\* point is not in front of the projection (non-positive denominator).
-RowPoints(m, y, dimX, a2, c, F) ==
-  [x \in 1..dimX |-> LET p == Apply(m, 2 * (x - 1) + 1 - a2, 2 * y + 1 - a2, 2 * c)
+\* integrality are all that nudging and truncation depend on); flag 1 = within 10^-6 of a pixel boundary (in inexact
+\* arithmetic the pixel under it is undetermined), 3 = within 10^-6 of a value where the nudge outcome changes,
+\* 2 = the point is not in front of the projection (non-positive denominator).
+RowPoints(m, y, dimX, a2, c, F, w, h) ==
+  [x \in 1..dimX |-> LET p == Apply(m, 2 * (x - 1) + 1 - a2, 2 * y + 1 - a2, 2 * c)  d == p[3] * F
                      IN IF p[3] <= 0 THEN <<0, 0, 2>>
-                        ELSE <<Coarse(p[1], p[3] * F), Coarse(p[2], p[3] * F),
-                               IF NearBoundary(p[1], p[3] * F) \/ NearBoundary(p[2], p[3] * F) THEN 1 ELSE 0>>]
+                        ELSE <<Coarse(p[1], d), Coarse(p[2], d),
+                               IF NearCritical(p[1], d, w) \/ NearCritical(p[2], d, h) THEN 3
+                               ELSE IF NearTag(p[1], d) # 0 \/ NearTag(p[2], d) # 0 THEN 1 ELSE 0>>]
 \* sampled bits of one row: NotFound when nudging fails or a point still lies outside (nothing outside the image is read)
 SampleRow(img, w, h, row, lenient, quirk) ==
   LET n == NudgeQ([i \in 1..Len(row) |-> <<row[i][1], row[i][2]>>], w, h, 2, lenient, quirk) IN
